@@ -382,6 +382,30 @@ theorem rotateInternalNodes_bijective (degs : List Nat) :
         ∃ d ∈ space (rotAllPermScript degs), rotAllPerms degs d = ps) :=
   rotAllPerms_bijective' degs
 
+/-- `RotateNeighbors` on a node of the rose tree (`rotateNode`, the function compared with the code on
+    every `rotate` case): the neighbours get the arrangement `rotate (range deg) draws` of their positions,
+    to which `rotate_bijective` applies. -/
+theorem rotateNode_arrangement (isRoot : Bool) (t : T) (d : List Nat)
+    (hd : d ∈ space (rotScript (degOf isRoot t))) :
+    rotateNode isRoot t d = permNode isRoot t (rotate (List.range (degOf isRoot t)) d) :=
+  rotateNode_eq_permNode isRoot t d ((mem_space_iff _ _).1 hd)
+
+example : degsT true exT = [3, 1, 1, 3, 1, 1] := by decide
+example : [0, 0, 1, 0, 0, 0, 1, 1, 0, 0] ∈ space (rotAllScriptT true exT) := by decide
+example : ((rotAllT true exT [0, 0, 1, 0, 0, 0, 1, 1, 0, 0]).1 ==
+    (applyPermsT true exT (rotAllPerms (degsT true exT) [0, 0, 1, 0, 0, 0, 1, 1, 0, 0])).1) = true := by decide
+
+/-- `RotateInternalNodes` on the rose tree (`rotAllT`, the function compared with the code on every
+    `rotall` / `rotate rand` case) gives every node, in `Nodes()` order, exactly the arrangement that
+    `rotAllPerms` lists for it, and its draw script is the one of `rotAllPerms`: so
+    `rotateInternalNodes_bijective` is a statement about the tree operation. -/
+theorem rotateInternalNodes_tree (t : T) (d : List Nat) (hd : d ∈ space (rotAllScriptT true t)) :
+    (rotAllT true t d).1 = (applyPermsT true t (rotAllPerms (degsT true t) d)).1 ∧
+    rotAllScriptT true t = rotAllPermScript (degsT true t) := by
+  have h := rotAllT_link true t d [] [] ((mem_space_iff _ _).1 hd)
+  simp only [List.append_nil] at h
+  exact ⟨by rw [h.1], rotAllScriptT_eq true t⟩
+
 /-! ### `RandomUniformBinaryTree` -/
 
 example : utree false [0, 2, 1] = [[1, 2, 3, 4], [2, 4], [1, 3], [3], [1], [4], [2]] := by decide
@@ -396,8 +420,9 @@ example : (utree false [0, 2, 1]).Perm
     topologies on `n` labelled tips (any binary tree `bt` over the tips `1 … n-1` hanging from
     tip 0, whatever its shape; its branches are the clusters of its subtrees):
     every value is the cluster set of such a tree; different draw lists give different cluster
-    sets; every topology is the cluster set of some draw list; and so there are as many
-    topologies as draw lists, `(2n-5)!!`. -/
+    sets; every topology is the cluster set of some draw list.  These three clauses are the
+    bijection.  The fourth only computes the size of the draw space, `(2n-5)!!`
+    (`numTopologies` is defined as that double factorial, it does not count trees). -/
 theorem uniform_unrooted_bijective (n : Nat) (hn : 2 ≤ n) :
     (∀ d ∈ space (utreeBounds false n), ∃ bt : BT, bt.isUnrootedOn n ∧ (utree false d).Perm (bt.clusters n)) ∧
     (∀ d1 ∈ space (utreeBounds false n), ∀ d2 ∈ space (utreeBounds false n),
